@@ -128,6 +128,13 @@ func pomSection(l *layout, kind string) string {
 		return i1 + "<modules>" + nl + i2 + "<module>core</module>" + nl + i2 + "<module>web</module>" + nl + i1 + "</modules>" + nl
 	case "repositories":
 		return i1 + "<repositories>" + nl + i2 + "<repository>" + nl + i3 + "<id>central-mirror</id>" + nl + i3 + "<url>https://repo.example.org/maven2</url>" + nl + i2 + "</repository>" + nl + i1 + "</repositories>" + nl
+	case "reporting":
+		// element names HTML knows as void elements (link, param, base, meta) are ordinary elements of a pom
+		return i1 + "<reporting>" + nl + i2 + "<plugins>" + nl + i3 + "<plugin>" + nl + i4 + "<groupId>org.plugin.docs</groupId>" + nl + i4 + "<artifactId>docs-maven-plugin</artifactId>" + nl +
+			i4 + "<configuration>" + nl + i5 + "<links>" + nl + i5 + l.indent + "<link>https://docs.example.org/api/</link>" + nl + i5 + "</links>" + nl +
+			i5 + "<additionalOptions>" + nl + i5 + l.indent + "<param>-Xdoclint:none</param>" + nl + i5 + "</additionalOptions>" + nl +
+			i5 + "<base>.</base>" + nl + i5 + "<meta>generated</meta>" + nl + i4 + "</configuration>" + nl +
+			i3 + "</plugin>" + nl + i2 + "</plugins>" + nl + i1 + "</reporting>" + nl
 	case "comment":
 		return i1 + "<!-- <dependencies><dependency><groupId>org.commented.out</groupId><artifactId>gone</artifactId></dependency></dependencies> -->" + nl
 	}
